@@ -73,7 +73,7 @@ def vm_check(cases, g, log, tier):
 def coq_cop(o):
     t = o.split()
     n = t[0]
-    if n in ("CAdd", "CSub", "CMul", "CQuo", "CFMA", "CNeg", "CAbs", "CSet", "CNew", "CNilOperand"):
+    if n in ("CAdd", "CSub", "CMul", "CQuo", "CFMA", "CNeg", "CAbs", "CSet", "CSqrt", "CNew", "CNilOperand"):
         return "(%s %s)" % (n, " ".join(t[1:]))
     if n == "CErr":
         return "CErr"
@@ -103,7 +103,7 @@ def gen(rng, tier):
             elif k == 9:
                 ops.append("CFMA %d %d %d %d" % (z, a, b, u))
             elif k <= 11:
-                ops.append("%s %d %d" % (rng.choice(["CNeg", "CAbs", "CSet"]), z, a))
+                ops.append("%s %d %d" % (rng.choice(["CNeg", "CAbs", "CSet", "CSqrt", "CSqrt"]), z, a))
             elif k <= 14:
                 ops.append("CErr")
             elif k == 15:
@@ -158,6 +158,14 @@ def judge(cases, g, m):
                 JUDGE_STATS["latched_steps_checked"] += 1
                 if vs != prev:
                     msg = "operation executed although an ErrNaN is pending"
+            elif opn == "CSqrt":
+                x = prev[int(t[2])]
+                if outcome == "crash":
+                    msg = "panic escaped from a context operation: " + line[:120]
+                elif x[1] == "1" and x[0] != "0":
+                    latched = True                       # square root of a negative operand: ErrNaN recorded
+                elif (int(vs[int(t[1])][2]), int(vs[int(t[1])][3])) != (cprec, cmode):
+                    msg = "receiver has precision/mode %s/%s, context has %d/%d" % (vs[int(t[1])][2], vs[int(t[1])][3], cprec, cmode)
             elif opn in ("CAdd", "CSub", "CMul", "CQuo", "CFMA"):
                 if outcome == "crash":
                     msg = "panic escaped from a context operation: " + line[:120]
